@@ -65,20 +65,20 @@ Proof.
       destruct (byte_eqb a x) eqn:E; [| discriminate]. apply byte_eqb_eq in E. subst. congruence.
     + simpl in H. apply andb_true_iff in H. destruct H as [Hd H].
       simpl in Hs. destruct (byte_eqb a d) eqn:E; [| discriminate]. apply byte_eqb_eq in E. subst.
-      f_equal. eapply IH; eauto.
+      f_equal. apply (IH c X r); assumption.
 Qed.
 Lemma word_end_safe p r : word_end p r = true -> safe is_we r.
-Proof. unfold word_end. destruct r as [| c r]; [trivial |]. simpl. intros H. apply andb_true_iff in H. destruct H as [H _]. destruct (is_we c); [discriminate | reflexivity]. Qed.
+Proof. unfold word_end. destruct r as [| c r]; [intros _; exact I |]. simpl. intros H. apply andb_true_iff in H. destruct H as [H _]. destruct (is_we c); [discriminate | reflexivity]. Qed.
 
 Lemma p_code_other c c' w X : codelikeb c = true -> codelikeb c' = true -> c' <> c -> allws w -> safe is_we X ->
   p_code c' (w ++ code_lit c ++ X) = None.
 Proof.
   intros Hc Hc' Hne Hw HX. apply codelike_parts in Hc, Hc'. destruct Hc as [_ Hall]. destruct Hc' as [_ Hall'].
   unfold p_code, lit_str. rewrite skip_ws_app by exact Hw.
-  rewrite !code_lit_cons. change ((x7e :: c) ++ X) with (x7e :: c ++ X).
+  rewrite (code_lit_cons c), (code_lit_cons c'). change ((x7e :: c) ++ X) with (x7e :: c ++ X).
   rewrite skip_ws_cons by reflexivity. simpl strip_prefix.
   destruct (strip_prefix c' (c ++ X)) as [r |] eqn:E; [| reflexivity].
-  destruct (word_end (last (x7e :: c') x00) r) eqn:W; [| reflexivity].
+  destruct (word_end _ r) eqn:W; [| reflexivity].
   exfalso. apply Hne. eapply strip_code_unique; eauto. eapply word_end_safe; eauto.
 Qed.
 Lemma p_code_nontilde c w d r : allws w -> is_ws d = false -> d <> x7e -> p_code c (w ++ d :: r) = None.
@@ -98,18 +98,6 @@ Proof.
   change ((c :: a) ++ rest) with (c :: a ++ rest). rewrite skip_ws_cons by exact Hc.
   change (c :: a ++ rest) with ((c :: a) ++ rest). rewrite span_app by assumption. reflexivity.
 Qed.
-Lemma p_word_stop w c r : allws w -> is_wordch c = false -> p_word (w ++ c :: r) = None.
-Proof.
-  intros Hw Hc. unfold p_word. rewrite skip_ws_app by exact Hw.
-  destruct (is_ws c) eqn:E.
-  - simpl. rewrite E. fold (skip_ws r).
-    destruct (skip_ws r) as [| d r'] eqn:S; [reflexivity |].
-    assert (is_ws d = false).
-    { clear - S. revert d r' S. induction r as [| x r IH]; intros; simpl in S; [discriminate |].
-      destruct (is_ws x) eqn:Ex; [eauto | congruence]. }
-    (* after skipping, either a word character starts a word: this lemma is only used with c not whitespace *)
-    Abort.
-
 Lemma p_word_stop w c r : allws w -> is_ws c = false -> is_wordch c = false -> p_word (w ++ c :: r) = None.
 Proof.
   intros Hw Hs Hc. unfold p_word. rewrite skip_ws_app by exact Hw. rewrite skip_ws_cons by exact Hs.
@@ -255,7 +243,24 @@ Lemma p_part_other p c c' w X : part_code p = Some c' -> codelikeb c = true -> c
   allws w -> safe is_we X -> p_part p (w ++ code_lit c ++ X) = None.
 Proof.
   intros Hp Hc Hc' Hne Hw HX. destruct p; simpl in Hp; try discriminate; injection Hp as ->;
-    simpl; rewrite p_code_other by assumption; reflexivity.
+    unfold p_part; rewrite p_code_other by assumption; reflexivity.
+Qed.
+Lemma first_part_found_aux P c w X v tail : In P coded -> part_code P = Some c -> codelikeb c = true ->
+  allws w -> safe is_we X -> p_part P (w ++ code_lit c ++ X) = Some v ->
+  forall ps, incl ps coded -> In P ps -> first_part (ps ++ tail) (w ++ code_lit c ++ X) = Some v.
+Proof.
+  intros HPc Hc Hcl Hw HX Hv ps. induction ps as [| p ps IH]; intros Hsub HP; [contradiction |].
+  assert (Hp : In p coded) by (apply Hsub; left; reflexivity).
+  destruct (coded_has_code p Hp) as [c0 [E0 Hin0]].
+  cbn [first_part app]. destruct (list_eq_dec byte_dec c0 c) as [-> | Hne].
+  - assert (p = P).
+    { apply (NoDup_map_inj part_code coded); [apply coded_nodup | exact Hp | exact HPc | congruence]. }
+    subst p. rewrite Hv. reflexivity.
+  - rewrite p_part_other with (c' := c0); try assumption.
+    + apply IH.
+      * intros q Hq. apply Hsub. right. exact Hq.
+      * destruct HP as [-> | HP]; [| exact HP]. rewrite Hc in E0. injection E0 as <-. congruence.
+    + apply in_codes_codelike. exact Hin0.
 Qed.
 Lemma first_part_found P c w X v tail : In P coded -> part_code P = Some c -> allws w -> safe is_we X ->
   p_part P (w ++ code_lit c ++ X) = Some v ->
@@ -264,39 +269,21 @@ Proof.
   intros HP Hc Hw HX Hv.
   assert (Hcl : codelikeb c = true).
   { destruct (coded_has_code P HP) as [c0 [E Hin]]. rewrite Hc in E. injection E as <-. apply in_codes_codelike. exact Hin. }
-  pose proof coded_nodup as Hnd.
-  assert (Hsub : forall p, In p coded -> In p coded) by auto.
-  revert Hsub HP. generalize coded at 1 3 4 as ps.
-  induction ps as [| p ps IH]; intros Hsub HP; [contradiction |].
-  simpl. destruct (list_eq_dec byte_dec) with (l := c) (l' := match part_code p with Some x => x | None => [] end) as [E | E].
-  - assert (Hpc : part_code p = Some c).
-    { destruct (coded_has_code p (Hsub p (or_introl eq_refl))) as [c0 [E0 _]]. rewrite E0 in E. subst c0. exact E0. }
-    assert (p = P).
-    { eapply (NoDup_map_inj part_code coded); eauto.
-      - apply Hsub. left. reflexivity.
-      - destruct HP as [-> | HP]; apply Hsub; [left; reflexivity | right; exact HP].
-      - congruence. }
-    subst p. rewrite Hv. reflexivity.
-  - destruct (coded_has_code p (Hsub p (or_introl eq_refl))) as [c0 [E0 Hin0]].
-    rewrite p_part_other with (c' := c0); try assumption.
-    + apply IH.
-      * intros q Hq. apply Hsub. right. exact Hq.
-      * destruct HP as [-> | HP]; [| exact HP]. rewrite Hc in E0. injection E0 as <-. rewrite Hc in E. simpl in E. congruence.
-    + apply in_codes_codelike. exact Hin0.
-    + rewrite E0 in E. congruence.
+  eapply first_part_found_aux; eauto. apply incl_refl.
+Qed.
+Lemma first_part_nontilde_aux w d r tail : allws w -> is_ws d = false -> d <> x7e ->
+  forall ps, incl ps coded -> first_part (ps ++ tail) (w ++ d :: r) = first_part tail (w ++ d :: r).
+Proof.
+  intros Hw Hd Hne ps. induction ps as [| p ps IH]; intros Hsub; [reflexivity |].
+  assert (Hp : In p coded) by (apply Hsub; left; reflexivity).
+  destruct (coded_has_code p Hp) as [c0 [E0 _]].
+  cbn [first_part app]. assert (p_part p (w ++ d :: r) = None) as ->.
+  { destruct p; simpl in E0; try discriminate; unfold p_part; rewrite p_code_nontilde by assumption; reflexivity. }
+  apply IH. intros q Hq. apply Hsub. right. exact Hq.
 Qed.
 Lemma first_part_nontilde w d r tail : allws w -> is_ws d = false -> d <> x7e ->
   first_part (coded ++ tail) (w ++ d :: r) = first_part tail (w ++ d :: r).
-Proof.
-  intros Hw Hd Hne.
-  assert (Hsub : forall p, In p coded -> In p coded) by auto.
-  revert Hsub. generalize coded at 1 3 as ps.
-  induction ps as [| p ps IH]; intros Hsub; [reflexivity |].
-  simpl. destruct (coded_has_code p (Hsub p (or_introl eq_refl))) as [c0 [E0 _]].
-  assert (p_part p (w ++ d :: r) = None) as ->.
-  { destruct p; simpl in E0; try discriminate; simpl; rewrite p_code_nontilde by assumption; reflexivity. }
-  apply IH. intros q Hq. apply Hsub. right. exact Hq.
-Qed.
+Proof. intros. apply first_part_nontilde_aux; auto. apply incl_refl. Qed.
 
 Lemma In_coded_unary c : mem_bytes c unary_codes = true -> In (PUnary c) coded.
 Proof. intros H. apply mem_bytes_In in H. unfold coded. apply in_or_app. left. apply in_map. exact H. Qed.
@@ -306,25 +293,31 @@ Lemma In_coded_int c : mem_bytes c int_codes = true -> In (PInt c) coded.
 Proof. intros H. apply mem_bytes_In in H. unfold coded. apply in_or_app. right. apply in_or_app. right. apply in_map. exact H. Qed.
 
 Lemma safe_we_of_wordch r : safe is_wordch r -> safe is_we r.
-Proof. destruct r as [| c r]; [trivial |]. simpl. apply not_wordch_not_we. Qed.
+Proof. destruct r as [| c r]; [intros _; exact I |]. simpl. apply not_wordch_not_we. Qed.
 Lemma safe_we_allws_app w c r : allws w -> is_we c = false -> safe is_we (w ++ c :: r).
 Proof.
   intros Hw Hc. destruct w as [| d w]; [exact Hc |]. simpl. unfold allws in Hw. simpl in Hw.
   apply andb_true_iff in Hw. apply not_wordch_not_we, ws_not_wordch. tauto.
 Qed.
+Ltac neq := let H := fresh in intro H; vm_compute in H; discriminate H.
 Lemma render_arg_head k nk a : arg_ok k nk a = true ->
   exists d r, render_arg k a = d :: r /\ is_ws d = false /\ d <> x7e /\ (is_we d = false \/ k = QBare)
               /\ (nk = true -> d <> op_not /\ d <> op_and /\ d <> op_or).
 Proof.
-  intros H. destruct k as [| q | q]; simpl in *.
-  - destruct a as [| c a]; [discriminate |]. apply andb_true_iff in H. destruct H as [Hall Hn].
+  intros H. destruct k as [| q | q]; unfold render_arg.
+  - simpl in H. destruct a as [| c a]; [discriminate |]. apply andb_true_iff in H. destruct H as [Hall Hn].
     simpl in Hall. apply andb_true_iff in Hall. destruct Hall as [Hc _].
-    exists c, a. repeat split; auto.
-    + apply wordch_not_ws. exact Hc.
-    + intros ->. discriminate.
-    + intros ->. rewrite andb_true_l in Hn. apply negb_true_iff in Hn. rewrite Hn0 in *. discriminate.
-  - destruct (quote_of_cases q) as [-> | ->]; eexists; eexists; (split; [reflexivity |]);
-      repeat split; auto; try discriminate; intros _; repeat split; discriminate.
-  - destruct (quote_of_cases q) as [-> | ->]; eexists; eexists; (split; [reflexivity |]);
-      repeat split; auto; try discriminate; intros _; repeat split; discriminate.
+    exists c, a. split; [reflexivity |]. split; [apply wordch_not_ws; exact Hc |].
+    split; [intros ->; vm_compute in Hc; discriminate Hc |]. split; [right; reflexivity |].
+    intros ->. simpl in Hn. apply negb_true_iff in Hn. rewrite !orb_false_iff in Hn. destruct Hn as [[H1 H2] H3].
+    split; [| split]; intros ->.
+    + vm_compute in H1. discriminate H1.
+    + vm_compute in H2. discriminate H2.
+    + vm_compute in H3. discriminate H3.
+  - exists (quote_of q), (a ++ [quote_of q]). split; [reflexivity |].
+    destruct (quote_of_cases q) as [E | E]; rewrite E;
+      (split; [reflexivity |]; split; [neq |]; split; [left; reflexivity |]; intros _; split; [| split]; neq).
+  - exists (quote_of q), (escape (quote_of q) a ++ [quote_of q]). split; [reflexivity |].
+    destruct (quote_of_cases q) as [E | E]; rewrite E;
+      (split; [reflexivity |]; split; [neq |]; split; [left; reflexivity |]; intros _; split; [| split]; neq).
 Qed.
